@@ -181,6 +181,14 @@ def case_st(draw):
                 extra.append(["orderby", [["py", "b"]]])
                 if draw(st.booleans()) and not any(s_[0] == "groupby" for s_ in p["steps"]):
                     extra.append(["groupby", [["py", "a"]]])
+            if k in ("T", "U", "V") and draw(st.integers(0, 4)) == 0:
+                # a self-join with a second, un-aliased object of the same table: the join gives that object its automatic alias, and
+                # a WHERE / HAVING that mentions the object must show the alias whether it was called before or after the join
+                p["sources"] = dict(p["sources"], SJ=list(p["sources"][k]))
+                extra.append(["join", [["src", "SJ"], ["enum", "JoinType", "inner"]], {}, ["on", [["eq", ["col", k, "a"], ["col", "SJ", "b"]]]]])
+                extra.append(["where", [["gt", ["col", "SJ", "c"], ["raw", 5]]]])
+                if draw(st.booleans()) and any(s_[0] == "groupby" for s_ in p["steps"]):
+                    extra.append(["having", [["gt", ["fn", "Max", [["col", "SJ", "c"]]], ["raw", 6]]]])
         # set-operation creation stays a barrier; insert the extras before it
         cut = next((i for i, s in enumerate(p["steps"]) if s[0] in SETOPS), len(p["steps"]))
         p["steps"] = p["steps"][:cut] + extra + p["steps"][cut:]
